@@ -147,7 +147,33 @@ def build_db(sim, rng):
         key = (run, t.target[tg]) + ids[e]
         t.prime[str(key)] = 'blob%d' % i
     del dawgie
-    return max_run, targets
+
+    def grow(rng2):
+        '''the database keeps living: new versions of known names, known algorithm names under other tasks, new runs'''
+        more = []
+        for _ in range(rng2.randint(3, 10)):
+            e = rng2.choice(elements)
+            k = rng2.random()
+            if k < 0.4:
+                e2 = (e[0], e[1], (e[2][0] + 1, 0, 0), e[3], e[4], e[5], e[6])  # algorithm re-versioned: new ids all the way down
+            elif k < 0.7:
+                e2 = (rng2.choice(['tk', 'tk2', 't', 'tk3']), e[1], e[2], e[3], e[4], e[5], e[6])  # same algorithm name in another task
+            else:
+                e2 = (e[0], e[1], e[2], e[3], (e[4][0], e[4][1] + 1, 0), e[5], e[6])  # state vector re-versioned
+            tkid = util.append(e2[0], t.task, ix.task)[1]
+            aid = util.append(e2[1], t.alg, ix.alg, tkid, LV(list(e2[2])))[1]
+            sid = util.append(e2[3], t.state, ix.state, aid, LV(list(e2[4])))[1]
+            vid = util.append(e2[5], t.value, ix.value, sid, LV(list(e2[6])))[1]
+            ids[e2] = (tkid, aid, sid, vid)
+            more.append(e2)
+        for i in range(rng2.randint(10, 60)):
+            e = rng2.choice(more)
+            run = rng2.randint(0, max_run + 3)
+            key = (run, t.target[rng2.choice(targets)]) + ids[e]
+            t.prime[str(key)] = 'grown%d' % i
+        elements.extend(more)
+
+    return max_run, targets, grow
 
 
 def brute(keys, den, targets, tasks, algs, svs):
@@ -186,16 +212,22 @@ def run_db(sim, dseed, res, thorough=False, only_query=None):
     from dawgie.db.basis import Params  # pylint: disable=import-outside-toplevel
 
     rng = random.Random(dseed)
-    max_run, targets = build_db(sim, rng)
+    max_run, targets, grow = build_db(sim, rng)
     keys = dawgie.db._prime_keys()  # pylint: disable=protected-access
     res.count('databases')
     res.count('primary_entries', len(keys))
     bad = []
     nq = rng.choice([40, 80, 120]) if not thorough else 200
+    grow_at = {nq // 2, (3 * nq) // 4}
     for qi in range(nq):
         qrng = random.Random(f'{dseed}/{qi}')
-        if only_query is not None and qi != only_query:
-            continue
+        if qi in grow_at:
+            # searches were answered, then the database grows, then the same kinds of searches are asked again
+            grow(random.Random(f'{dseed}/grow{qi}'))
+            keys = dawgie.db._prime_keys()  # pylint: disable=protected-access
+            res.count('database_growth_steps')
+        if only_query is not None and qi > only_query:
+            break  # (a replay re-asks everything up to the failing query: answers may depend on earlier ones)
         b = check_scrub(qrng, res)
         if b:
             bad.append(b + ({'dseed': dseed, 'query': qi},))
